@@ -18,7 +18,8 @@ SOURCES = ['src/dtaidistance/dtw_barycenter.py', 'src/dtaidistance/dtw.py', 'src
 FUNCTIONS = ['dtw_barycenter.dba', 'dtw_barycenter.dba_loop', 'dtw.warping_path', 'dd_dtw.c dtw_dba_ptrs, dtw_dba_matrix (deterministic branch), dtw_warping_paths_ndim, dtw_best_path']
 BOUNDS = {'quick': {'n series': '1..2', 'average length': '1..2', 'series length': '1..2 (3 for one series)', 'ndim': '1 (C: 1..2)', 'window': 'None, 1',
                     'penalty': 'None | symbolic (C engine)', 'masks': 'all with >= 1 selected', 'max_it': '1..2'},
-          'thorough': {'n series': '1..3', 'average length': '1..3', 'series length': '1..3', 'ndim': '1..2', 'window': 'None,1,2', 'max_it': '1..3'}}
+          'thorough': {'n series': '1..3', 'average length': '1..3', 'series length': '1..3', 'ndim': '1..2', 'window': 'None,1', 'max_it': '1..3',
+                       'larger shapes (C engine; Python with window 1)': '(t, lengths) = (4,[4]), (4,[4,3]), (3,[4,4]), (5,[5,3]), (6,[6,4]), (4,[2,5]) with windows None/1/2 as far as the exploration finishes'}}
 OUTSIDE = ['nb_prob_samples > 0 and get_good_c (random sampling)', 'the Cython glue (mask packing is transcribed: little-endian bit per series)', 'floating point rounding',
            'Python engine with a penalty: dtw.warping_path ignores it (C05 known finding F05-py-penalty)']
 ASSUMPTIONS = ['the alignment used for a series is observed by wrapping warping_path (Python) / dtw_best_path (C); it must be a valid optimal path',
@@ -39,20 +40,29 @@ def tasks(tier, seed):
     shapes = [(1, [1]), (1, [2]), (2, [2]), (2, [1, 2]), (2, [2, 2]), (1, [2, 2]), (2, [3])]
     if tier == 'thorough':
         shapes += [(2, [2, 2, 2]), (3, [3]), (3, [2, 3]), (3, [3, 3]), (2, [3, 2, 1])]
-    for t, lens in shapes:
+    big = []
+    if tier == 'thorough':      # larger shapes: C engine only (the Python exploration does not finish there), narrow windows also in Python
+        big = [(4, [4], (None, 1, 2)), (4, [4, 3], (None, 1)), (3, [4, 4], (None, 1)), (5, [5, 3], (1, 2)), (6, [6, 4], (1,)), (4, [2, 5], (1, 2))]
+    for t, lens, wins, engines in [(t, lens, (None, 1), ('py', 'c')) for t, lens in shapes] + [(t, lens, w, ('c',)) for t, lens, w in big] + \
+            [(t, lens, tuple(x for x in w if x == 1), ('py',)) for t, lens, w in big if 1 in w and t * max(lens) <= 16]:
         n = len(lens)
         masks = [m for m in itertools.product([True, False], repeat=n) if any(m)]
+        if t * max(lens) > 9:
+            masks = [m for m in masks if all(m)]
         for mask in masks:
-            for w in (None, 1):
-                ts.append({'harness': 'py/dba', 'eng': 'py', 't': t, 'lens': lens, 'mask': list(mask), 'window': w, 'pen': False, 'ndim': 1,
-                           'est': 9 ** sum(lens[i] for i in range(n) if mask[i]) * t})
+            for w in wins:
+                if 'py' in engines:
+                    ts.append({'harness': 'py/dba', 'eng': 'py', 't': t, 'lens': lens, 'mask': list(mask), 'window': w, 'pen': False, 'ndim': 1,
+                               'est': 9 ** min(6, sum(lens[i] for i in range(n) if mask[i])) * t})
+                if 'c' not in engines:
+                    continue
                 for pen in (False, True):
                     for fn in ('dtw_dba_ptrs', 'dtw_dba_matrix'):
                         if fn == 'dtw_dba_matrix' and len(set(lens)) != 1:
                             continue
-                        for ndim in ((1, 2) if (t * max(lens) <= 2 or tier == 'thorough') else (1,)):
+                        for ndim in ((1, 2) if (t * max(lens) <= 2 or (tier == 'thorough' and t * max(lens) <= 9)) else (1,)):
                             ts.append({'harness': 'c/' + fn, 'eng': 'c', 'fn': fn, 't': t, 'lens': lens, 'mask': list(mask), 'window': w, 'pen': pen,
-                                       'ndim': ndim, 'est': 9 ** sum(lens[i] for i in range(n) if mask[i]) * t * ndim})
+                                       'ndim': ndim, 'est': 9 ** min(6, sum(lens[i] for i in range(n) if mask[i])) * t * ndim})
     for t, lens in [(1, [2]), (2, [2]), (2, [1, 2])]:
         for mi in ((1, 2) if tier == 'quick' else (1, 2, 3)):
             ts.append({'harness': 'py/dba_loop', 'eng': 'loop', 't': t, 'lens': lens, 'max_it': mi, 'est': 30 ** mi})
